@@ -25,18 +25,21 @@ SeqSet(s) == { s[i] : i \in DOMAIN s }
 NameOf(vpc, n) == [host |-> IF vpc THEN n.ip ELSE n.fqdn, port |-> n.port]
 Names(vpc, nodes) == { NameOf(vpc, nodes[i]) : i \in DOMAIN nodes }
 
-DMonInit(h) == [vpc |-> h.vpc, adv |-> <<>>, err |-> FALSE, cur |-> {}, valid |-> FALSE, faulted |-> {}]
+DMonInit(h) == [vpc |-> h.vpc, adv |-> <<>>, err |-> FALSE, cur |-> {}, valid |-> FALSE, faulted |-> {}, malformed |-> FALSE]
 
 DMonClauses(m, ev) ==
   CASE ev.e = "advertise" -> << >>
     [] ev.e = "fault" -> << >>
     [] ev.e = "discover" ->
-         << <<"C19-config-ERROR-surfaces-as-a-memcached-error", m.err => ev.outcome = "memcache-error">>,
+         << <<"C19-config-ERROR-surfaces-as-a-memcached-error", (m.err /\ ~m.malformed) => ev.outcome = "memcache-error">>,
+            (* a reply that is well terminated but holds no configuration at all: whatever is raised, nothing is applied *)
+            <<"C19-a-reply-without-a-configuration-is-not-applied", m.malformed => ev.outcome # "ok">>,
             <<"C19-discovery-succeeds-however-the-reply-is-split", ~m.err => ev.outcome = "ok">>,
             <<"C19-rotation-equals-the-advertised-node-list",
                   (~m.err /\ ev.outcome = "ok") => (SeqSet(ev.rot) = Names(m.vpc, m.adv) /\ Len(ev.rot) = Cardinality(SeqSet(ev.rot)))>>,
             <<"C19-connections-to-replaced-nodes-are-closed",
                   (~m.err /\ ev.outcome = "ok") => SeqSet(ev.open) \subseteq Names(m.vpc, m.adv)>>,
+            <<"C19-the-connection-to-the-configuration-endpoint-is-closed", "cfgopen" \in DOMAIN ev => ev.cfgopen = 0>>,
             <<"C19-no-node-is-left-with-two-open-connections",
                   (~m.err /\ ev.outcome = "ok") => Len(ev.open) = Cardinality(SeqSet(ev.open))>> >>
     [] ev.e = "route" ->
@@ -45,7 +48,8 @@ DMonClauses(m, ev) ==
     [] OTHER -> << <<"known-event", FALSE>> >>
 
 DMonEffect(m, ev) ==
-  CASE ev.e = "advertise" -> [m EXCEPT !.adv = ev.nodes, !.err = ev.error]
+  CASE ev.e = "advertise" -> [m EXCEPT !.adv = ev.nodes, !.err = ev.error,
+                                       !.malformed = IF "malformed" \in DOMAIN ev THEN ev.malformed ELSE FALSE]
     [] ev.e = "discover" -> IF ev.outcome = "ok" /\ ~m.err THEN [m EXCEPT !.cur = Names(m.vpc, m.adv), !.valid = TRUE, !.faulted = {}] ELSE m
     [] ev.e = "fault" -> [m EXCEPT !.faulted = m.faulted \cup {ev.node}]
     [] OTHER -> m
